@@ -52,6 +52,10 @@ def run(ctx: Ctx):
     ctx.attempt(tables, ctx)
     ctx.attempt(collectors, ctx)
     ctx.attempt(discarded_steps, ctx)
+    # "every ... drop-off ... that changes the state is reported exactly once": the drop-off record is filed by drop_off_trip, so a trip
+    # that ends without calling it (the vehicle simply goes Idle with an empty route) leaves a pickup without a drop-off in the log
+    from . import c03 as _c03
+    ctx.attempt(_c03.dropoff, ctx, True)
     ctx.floor("EV", 8)
     ctx.not_decided += ["numeric sums of event fields vs state fields", "the pickup waiting-time bound (time-of-day arithmetic)"]
 
